@@ -279,3 +279,33 @@ Example tx_solve_period_label :
          (s_ev 3 tx_scripts) (s_before 3 tx_scripts) (s_after 3 tx_scripts) Z (locate_index tx_span) tx_desc (tx_opts 0 5)
          1999 tx_state tx_tr0 = ((tx_state, tx_tr0), Raise KeyError).
 Proof. split; [reflexivity|]. split; [reflexivity|]. split; vm_compute; reflexivity. Qed.
+
+(* ---------------- Trace.to_dataframe: the labels x names table after a traced solve; after the failed append of finding
+   #16 the Trace carries a label without a column and to_dataframe raises ValueError from then on *)
+Example tx_frame_ok :
+  to_dataframe float (nth 1 tx_tr1 tx_e)
+  = Ret ([LStart; LBefore; LIter 0; LIter 1; LIter 2; LIter 3; LEnd], [0%nat],
+         [[0%float]; [0%float]; [0%float]; [1%float]; [1.5%float]; [1.5%float]; [1.5%float]]).
+Proof. vm_compute. reflexivity. Qed.
+
+Lemma to_dataframe_after_width_mismatch_refuted :
+  exists (sc : scripts) (cfg : tcfg) (d : mdesc) (o : fopts) (t : Z) (s : fstate) (tr : ftraces) (a : targ) (p : nat),
+    truthy a = true /\ py_pos (length tr) t = Some p /\
+    (exists f, to_dataframe float (nth p tr (empty_trace float)) = Ret f) /\
+    to_dataframe float (nth p (snd (fst (f_traced_solve_t sc cfg a false d o t s tr))) (empty_trace float)) = Raise ValueError.
+Proof.
+  exists tx_scripts, tx_cfg, tx_desc, (tx_opts 0 5), 1, tx_s1, tx_tr1, (TList [0%nat; 1%nat]), 1%nat.
+  split; [reflexivity|]. split; [vm_compute; reflexivity|]. split.
+  - eexists. exact tx_frame_ok.
+  - rewrite tx_second_traced_raises. vm_compute. reflexivity.
+Qed.
+
+(* the public snapshot methods called directly: trace_t(1, 'u7', trace=None) records the default names (trace_t never
+   asks whether `trace` is truthy); trace_period(1999, ...) -> KeyError *)
+Example tx_direct_trace_t :
+  trace_t float tx_cfg 1 (LUser 7) TNone false (vals_of tx_state) tx_tr0
+  = ([tx_e; mkTrace [0%nat; 1%nat] [LUser 7] [[0%float; 3%float]]; tx_e], None)
+  /\ trace_period_M float tx_cfg TNone false Z (locate_index tx_span) 1999 (LUser 7) (vals_of tx_state) tx_tr0 = (tx_tr0, Some KeyError)
+  /\ trace_period_M float tx_cfg (TName 1) false Z (locate_index tx_span) 2002 LEnd (vals_of tx_state) tx_tr0
+     = ([tx_e; tx_e; mkTrace [1%nat] [LEnd] [[4%float]]], None).
+Proof. repeat split; vm_compute; reflexivity. Qed.
